@@ -171,6 +171,15 @@ def b_dens(ctx, it):
     return mod, [Sym(ctx, 'x', (6,))], {}
 
 
+@case('DensityFilter[3x2,r=3/2,nonpadding]', f'{FIL}:DensityFilter', targets=[f'{FIL}:Filter._prepare', f'{FIL}:Filter._response', f'{FIL}:Filter._sensitivity'])
+def b_dens_np(ctx, it):
+    # the `nonpadding` option rescales the row sums of all elements outside the given set AFTER they were computed: response and sensitivity must
+    # both use the rescaled sums
+    dom = it.call(it.get_function(DOMAIN), [3, 2, 0])
+    mod = mk_module(it, f'{FIL}:DensityFilter', 1, 1, dom, radius=Fraction(3, 2), nonpadding=to_carr([0, 1, 4]))
+    return mod, [Sym(ctx, 'x', (6,))], {}
+
+
 # multi-layer instances lead to deeply nested rpow identities that z3 does not decide (see DESIGN 9.2): the layer sweep's adjoint is covered by
 # the bounded stand-in (complex-step reference); the single-layer instance (identity map, the repaired defect) is proved
 for _size, _dir, _ns in (((3, 1, 0), (0, 1), 3), ((1, 2, 1), (1, 0, 0), 5)):
